@@ -17,7 +17,7 @@ EXPLANATION = (
 
 def run(tier):
     cr = CheckRun("C10", tier, "other", EXPLANATION, "DESIGN §4 C10")
-    cr.contracts(["contracts.c10", "contracts.c11"])
+    cr.contracts(["contracts.c10", "contracts.c11", "contracts.c16b"])
     from pyvc import guards
     # precondition of _maybe_mark_dead at its call sites: liveness is decided over the WHOLE operation list
     cr.ext_obligations.append(guards.call_passes_param(
